@@ -1,0 +1,41 @@
+// Copyright © 2026 Meroxa, Inc.
+//
+// Licensed under the Apache License, Version 2.0 (the "License");
+// you may not use this file except in compliance with the License.
+// You may obtain a copy of the License at
+//
+//     http://www.apache.org/licenses/LICENSE-2.0
+//
+// Unless required by applicable law or agreed to in writing, software
+// distributed under the License is distributed on an "AS IS" BASIS,
+// WITHOUT WARRANTIES OR CONDITIONS OF ANY KIND, either express or implied.
+// See the License for the specific language governing permissions and
+// limitations under the License.
+
+//go:build verif
+
+// Package verifhook provides named scheduling points for runtime verification
+// harnesses. With the "verif" build tag a harness can install a handler that
+// is called at every point (typically to sleep or yield, which widens the set
+// of interleavings a stress run explores). The points never change state.
+package verifhook
+
+import "sync/atomic"
+
+var handler atomic.Pointer[func(string)]
+
+// Set installs the handler called at every point (nil removes it).
+func Set(f func(name string)) {
+	if f == nil {
+		handler.Store(nil)
+		return
+	}
+	handler.Store(&f)
+}
+
+// Point marks a place between two critical sections.
+func Point(name string) {
+	if f := handler.Load(); f != nil {
+		(*f)(name)
+	}
+}
